@@ -19,7 +19,7 @@ NONTRIVIAL = WITNESSES
 COLS = ["MinTemp", "MaxTemp", "Precipitation", "ReferenceET", "Date"]
 EXTRA = ["none", "front", "middle", "end"]
 INDEX = ["range", "shift1000", "reversed_labels", "strings", "date"]
-ROWS = ["none", "lead400", "trail400", "both"]
+ROWS = ["none", "lead400", "trail400", "both", "lead_gap", "lead_dup", "lead_labels", "trail_gap"]
 CROPS = {
     "calendar": lambda: A.to_spec(A._b(crop="maize.2", win="w2", word="mix", irr="smt")),
     "thermal": lambda: _thermal(),
@@ -91,10 +91,18 @@ def run(scn):
     res = empty_result()
     spec, tb, dg = base_for(scn["crop"])
     p = copy.deepcopy(spec)
-    if scn["rows"] in ("lead400", "both"):
+    if scn["rows"] in ("lead400", "both", "lead_gap", "lead_dup", "lead_labels"):
         p["weather"]["lead"] = 400
-    if scn["rows"] in ("trail400", "both"):
+    if scn["rows"] in ("trail400", "both", "trail_gap"):
         p["weather"]["trail"] = 400
+    if scn["rows"] == "lead_gap":
+        p["weather"]["drop_lead_rows"] = [200, 203]
+    elif scn["rows"] == "lead_dup":
+        p["weather"]["dup_lead_row"] = 120
+    elif scn["rows"] == "lead_labels":
+        p["weather"]["keep_labels_from"] = 90
+    elif scn["rows"] == "trail_gap":
+        p["weather"]["drop_trail_rows"] = [30, 36]
     df = transform(S.make_weather(p), scn, p)
     ent = S.make_entities(spec)
     ent["weather_df"] = df
@@ -130,10 +138,10 @@ def run(scn):
 def describe(tier):
     return {
         "rule": "ALL 120 permutations of the five required columns; unrelated extra columns at the front / middle / end; index {RangeIndex, shifted by 1000, reversed labels, "
-                "string labels, Date index}; 400 extra leading / trailing rows / both; " + ("each factor alone against the identity plus three combined cases" if tier == "quick" else "the FULL product (9600 tables)")
+                "string labels, Date index}; 400 extra leading / trailing rows / both, also with a gap of missing days, a duplicated row or dropped-but-not-re-indexed rows outside the window; " + ("each factor alone against the identity plus three combined cases" if tier == "quick" else "the FULL product (19200 tables)")
                 + "; x {calendar-day crop with threshold irrigation, thermal-time crop whose calendar is re-derived from the weather matrix at each season start} over 2 seasons. "
                 "Oracle: all four tables bitwise equal to the run fed with the canonical table.",
-        "bound": "120 permutations complete; " + ("factors alone" if tier == "quick" else "full product 120 x 4 x 5 x 4") + " x 2 crops",
+        "bound": "120 permutations complete; " + ("factors alone" if tier == "quick" else "full product 120 x 4 x 5 x 8") + " x 2 crops",
         "exhaustive": True,
         "witnesses": WITNESSES,
         "assumptions": ["bitwise comparison on one interpreter/numpy build"],
